@@ -181,6 +181,7 @@ class Transact(Contract):
        -commission + multiplier x [(new position x its liq price) - (old position x its liq price) - dq x exec price]"""
     relpath, qual = REL, "Broker.transact"
     props = ("C01", "C05", "C03", "C13")
+    shards = [[0, 0], [0, 1], [1, 0], [1, 1]]       # mr == 0 x has_last (the first two case splits)
 
     def pre_state(self, I):
         b = mk_broker(I)
